@@ -44,9 +44,14 @@ RULE = (
     "returned function's Taylor coefficients (exact truncated-series arithmetic over Q, harness) equal brute-force "
     "counts as far as brute force is affordable (n <= 7..14, recorded) and the counts of an independent recurrence of "
     "the harness (transfer recurrence for words, convolution recurrence for trees; no objects, no library) up to x^40; "
-    "the library's own counts are only recorded; (d) whether C20_closed_form_criterion speaks about the specification "
-    "(rule forms, the rules' shifts() = the declared shifts, minimum sizes, the root pumps) is recorded: applies / "
-    "outside:quotient / outside:verified; (e) the SELECTION step is compared with the model: the solver's lists as handed "
+    "the library's own counts are only recorded; (d) C20_closed_form_criterion is INSTANTIATED: uspec_of turns the "
+    "returned specification into the model's descriptor (one urule per rule, product factors with "
+    "minimum_size_of_object(); keys = the rules' own shifts()), which is field 8 of the model input; run_c20 evaluates "
+    "crit_okb on it (one rule per class, declared keys = regenerated shifts, urule_wf, minimum sizes consistent, the root "
+    "pumps by the proved table method), checks that every descriptor rule's equation is the rule descriptor's equation, "
+    "and evaluates genuine_u / the recurrences of to_srule / the minimum sizes on the brute-force tables; the harness "
+    "computes the same verdicts independently (mismatch = broken tie) -- covered / outside:quotient / outside:verified; "
+    "(e) the SELECTION step is compared with the model: the solver's lists as handed "
     "to get_genf (Taylor coefficients 0..check+6 of every class's function in every solution) and the specification's "
     "counts go into genf_select (Count/GenfSelect.v), whose choice must be the returned function (coefficients "
     "0..check+6) or IncorrectGeneratingFunctionError. With statistics get_genf must refuse (NotImplementedError). (rule, 55%) single "
@@ -77,7 +82,8 @@ RULE = (
 )
 TECHNIQUE = (
     "Coq proof (truncated multivariate power series as finite term lists; uniqueness through Spec/Eval.v; the "
-    "closed-form criterion as a corollary) + extracted-model/implementation correspondence on the sympy objects of "
+    "closed-form criterion as a corollary; a boolean decider of the criterion's decidable hypotheses, proved sound, "
+    "using the proved table-method decision for 'pumps') + extracted-model/implementation correspondence on the sympy objects of "
     "real specifications + per-instance check of the criterion's premise for get_genf (sympy.solve / simplify, exact "
     "series arithmetic, brute force, an independent counting recurrence)"
 )
@@ -98,7 +104,9 @@ LEVEL_TEXT = (
     "(both classes' parameters are then 0 on every object); C20_equivalence_reverse_with_parameters_has_no_equation: "
     "otherwise Complement.get_equation raises and, unlike ReverseRule, nothing falls back -- get_equations emits the "
     "placeholder F = NOTIMPLEMENTED(x), about which nothing is claimed. C20_without_parameters_every_rule_has_equation: "
-    "a specification without parameters never gets a placeholder. Variables of the model are NAMES (sympy "
+    "a rule with only empty dictionaries gets no placeholder -- EXCEPT the two forms that never have an equation "
+    "(rule_plain is False for them by definition): the EquivalenceRule of a reversed single-factor product and a path "
+    "holding such a step wrapped, which get the placeholder whatever the parameters. Variables of the model are NAMES (sympy "
     "symbols are global by name) and the model's subs is the simultaneous substitution of subs(..., simultaneous=True). "
     "GROUP 2, univariate: C20_unique_series (two families that satisfy every emitted equation of a union / product / "
     "complement / atom / empty specification at every order and vanish below the declared minimum sizes coincide on "
@@ -107,7 +115,19 @@ LEVEL_TEXT = (
     "product = full Cauchy product -- the true counts are such a family), and C20_closed_form_criterion: if "
     "additionally a family G of coefficient sequences, one per class, satisfies every emitted equation at every order "
     "(i.e. identically as formal power series) and vanishes below the minimum sizes, then G's coefficients are the "
-    "true counts at EVERY order. GROUP 3, the selection of get_genf (Count/GenfSelect.v; what sympy.solve returned is an "
+    "true counts at EVERY order. THE CRITERION MEETS THE REAL SPECIFICATION: C20_criterion_decided -- for a finite "
+    "descriptor us (class, urule) and the keys ks the library declares, crit_okb us ks root = true (Count/"
+    "SeriesCriterion.v: one rule per class; every declared key is its rule's key with the shifts REGENERATED from the "
+    "minimum sizes, Gen/ProductShifts.v; urule_wf; minimum sizes >= 0 and a function of the class; pumpsb ks root = the "
+    "proved table-method decision of Forest/, C03_total_sound_complete) implies keys_from_spec, urule_wf of every rule and "
+    "pumps ks root, i.e. ALL decidable hypotheses of the criterion for uspec_of us; C20_closed_form_criterion_decided / "
+    "C20_genf_selected_closed_form_decided -- the criterion / the selection corollary with those hypotheses replaced by "
+    "the verdict (and sel_okb), the premises on W and G reduced to: every rule of us genuine for W, W and G zero below "
+    "dmin_of us, G satisfies every equation; C20_table_checks_decided -- what the in-run table checks genuine_ub / "
+    "recur_okb / low_okb mean (sizes 0..M only). run_c20 evaluates crit_okb on the descriptor uspec_of builds from the "
+    "real specification of EVERY get_genf case that returned a closed form (extra_checks covered_by_theorem "
+    "C20_closed_form_criterion: measured 290 of 293 = 0.99 on seed 0, required 0.95; the rest hold a Quotient rule or a "
+    "user verification strategy). GROUP 3, the selection of get_genf (Count/GenfSelect.v; what sympy.solve returned is an "
     "input): C20_genf_selection -- the returned branch is the first of the solver's on which EVERY class's series (not "
     "only the root's) agrees with the specification's counts on the check+1 compared terms; "
     "C20_genf_selection_beyond_compared_terms_refuted -- that does not imply agreement at x^(check+1); "
@@ -124,13 +144,22 @@ LEVEL_NOTE = (
     "(genf_select, with _all_classes_agree: every class's solved function must expand to that class's counts on "
     "check+1 terms) and tied by correspondence. The selection guarantees agreement on the compared terms only "
     "(C20_genf_selection); every order is the reduction C20_closed_form_criterion / C20_genf_selected_closed_form, "
-    "whose remaining premise is checked PER INSTANCE, as far as sympy allows: "
+    "whose DECIDABLE hypotheses are now decided by the extracted crit_okb on the descriptor of the real specification "
+    "(C20_criterion_decided; that the descriptor IS the specification is the harness's uspec_of, tied in-run by: each "
+    "descriptor rule's equation has the normal forms of the rule descriptor's equation, which is compared with the "
+    "library's sympy equation; the keys are the rules' own shifts(); the minima are minimum_size_of_object()), and "
+    "whose remaining premises are checked PER INSTANCE, as far as sympy allows: "
     "the returned function is the root's function in a solution of sympy.solve's that has a function for every "
     "class, satisfies every emitted equation identically (simplify; exact series to x^40 when simplify cannot decide) "
     "and consists of integer power series vanishing below the minimum sizes. The criterion's other hypotheses are "
-    "checked per instance only to a finite order or not at all: genuineness of every rule to the oracle's order "
-    "(7-10), the rules' shifts() = the declared shifts, the root pumps (value iteration with a cut-off), integer "
-    "coefficients to order 8 (root: 40); specifications with a Quotient rule or a user verification strategy are "
+    "checked per instance only to a finite order: genuineness of every rule in plain arithmetic (genuine_u, the premise "
+    "of C20_true_counts_solution) and the recurrences of to_srule on the brute-force tables to the oracle's order (7-10) "
+    "-- evaluated by the extracted run AND the harness, an oracle fact, not a proof --, nothing below the declared minimum "
+    "sizes to that order, integer coefficients to order 8 (root: 40). STILL PREMISES per instance: the solved functions "
+    "satisfy every equation identically (sympy simplify: trusted), genuineness beyond size M, and W = the "
+    "specification's counts = the true counts (C01's conclusion, not composed here). The harness's own verdict "
+    "(_criterion / crit_parts_py: Python value iteration for 'pumps') is only the second opinion compared with "
+    "crit_okb. Specifications with a Quotient rule or a user verification strategy are "
     "outside the criterion (recorded as such; for them only the Taylor comparison to x^40 and the identity check "
     "stand). The Taylor comparison is against brute force (n <= 7..14) and beyond that against an independent "
     "recurrence of the harness, not against the library's counts. Trusted: Coq kernel, extraction + OCaml driver, "
@@ -167,11 +196,16 @@ ASSUMPTIONS = [
     "every object of the child, and no two parent parameters of a product share a child parameter -- otherwise the "
     "old equation is wrong (C20_union_unmapped_refuted, C20_product_collision_refuted), which is tolerated there",
     "a placeholder equation F = NOTIMPLEMENTED(x) (EquivalenceRule of a reversed rule with a non-empty dictionary, "
-    "equivalence path through a reversed merging rule, AtomStrategy with parameters) is a refusal: no claim; it never "
-    "occurs without parameters (theorem), and a specification handed back by the searcher never contains a bare "
+    "equivalence path through a reversed merging rule, AtomStrategy with parameters) is a refusal: no claim; without "
+    "parameters it occurs only for the EquivalenceRule of a reversed single-factor product, bare or as a wrapped path "
+    "step (theorem C20_without_parameters_every_rule_has_equation under rule_plain, which excludes exactly these two "
+    "forms; the oracle lets kinds 10/11 pass), and a specification handed back by the searcher never contains a bare "
     "EquivalenceRule (checked per case)",
     "C20_closed_form_criterion: univariate, union/product/complement/atom/empty rules only (no Quotient, no user "
-    "verification strategy), integer Taylor coefficients, solutions vanish below the classes' minimum sizes",
+    "verification strategy), integer Taylor coefficients, solutions vanish below the classes' minimum sizes; its "
+    "decidable hypotheses are decided in-run (crit_okb) on the descriptor harness uspec_of builds -- that this descriptor "
+    "is the specification (labels, rule forms, minimum_size_of_object, shifts()) is trusted harness code, tied by the "
+    "in-run comparison of the descriptor rules' equations with the emitted ones",
     "C20_genf_selection speaks about the specification's OWN counts (rule.count_objects_of_size); that they are the true "
     "counts is C01's conclusion (the oracle compares with brute force and an independent recurrence instead)",
 ]
@@ -804,6 +838,17 @@ def impl(case):
             res["out"] = res["out"] + extra
         else:
             res["genf_model"] = "skipped"
+        # the closed-form criterion on the REAL specification: descriptor -> model (field 8), harness verdict -> out
+        if any("genf" in g for g in res["genf"]):
+            cenc, centry, why = _criterion_input(b, check)
+            if cenc is not None:
+                while len(res["enc"]) < 8:
+                    res["enc"].append([])
+                res["enc"][7] = cenc
+                res["out"] = res["out"] + [centry]
+                res["crit"] = centry
+            else:
+                res["crit_outside"] = why
     return res
 
 
@@ -1370,6 +1415,167 @@ def _criterion(b, M):
     return "applies", None
 
 
+# ----------------------------------------------------------------------------- the criterion's model input
+def uspec_of(b):
+    """The real univariate specification of a get_genf case as the MODEL's descriptor (Count/SeriesUnique.v `urule`,
+    Count/SeriesCriterion.v `uspec_of`): -> ("ok", us, ks) or ("outside", reason).
+      us  one [class, kind, ...] per rule of the specification, in the order of b.rules (= the order of the rule
+          descriptors sent to run_c20): 0 [kids] union (equivalence paths / forward equivalences are one-child unions:
+          C20_without_parameters_equivalences_are_unions), 1 [[kid, minimum_size_of_object()] ...] product,
+          2 p cs idx complement (reverse of the union p -> cs; reverse equivalence: cs = [class]), 7 m atom, 8 empty;
+      ks  the keys the LIBRARY declares, one per rule: [class, [[child, shift] ...]] with the rule's own shifts()
+          (verification rules: no children).
+    Outside the fragment of C20_closed_form_criterion: Quotient rules, verification strategies with their own series,
+    equivalences of reversed single-factor products (no equation at all)."""
+    from comb_spec_searcher.strategies.rule import VerificationRule
+
+    us, ks = [], []
+    for r in b.rules:
+        d = describe(r, b.label, b.vid)
+        k = d[0]
+        c = b.label(r.comb_class)
+        if k == 3:
+            return "outside", "quotient"
+        if k == 9:
+            return "outside", "verified"
+        if k in (10, 11):
+            return "outside", "placeholder"
+        if k == 0:
+            us.append([c, 0, list(d[2])])
+        elif k == 1:
+            us.append([c, 1, [[b.label(ch), int(ch.minimum_size_of_object())] for ch in r.children]])
+        elif k == 2:
+            us.append([c, 2, d[1], list(d[2]), d[4]])
+        elif k == 4:
+            us.append([c, 0, [d[2][d[4]]]])
+        elif k == 5:
+            us.append([c, 2, d[2], [d[1]], 0])
+        elif k == 6:
+            us.append([c, 0, [d[3]]])
+        elif k == 7:
+            us.append([c, 7, int(d[2])])
+        elif k == 8:
+            us.append([c, 8])
+        else:
+            return "outside", "kind %d" % k
+        if isinstance(r, VerificationRule):
+            ks.append([c, []])
+        else:
+            ks.append([c, [[b.label(ch), int(sh)] for ch, sh in zip(r.children, r.shifts())]])
+    return "ok", us, ks
+
+
+def _urule_kids(u):
+    """children of a descriptor rule with the shifts the criterion's recurrence declares (Coq: r_kids (to_srule r));
+    product: total of the minima minus the factor's own, written out here independently of the library"""
+    k = u[1]
+    if k == 0:
+        return [[x, 0] for x in u[2]]
+    if k == 1:
+        tot = sum(m for _, m in u[2])
+        return [[x, tot - m] for x, m in u[2]]
+    if k == 2:
+        return [[x, 0] for x in [u[2]] + [y for j, y in enumerate(u[3]) if j != u[4]]]
+    return []
+
+
+def crit_parts_py(us, ks, root):
+    """the harness's own verdict on the decidable hypotheses of C20_closed_form_criterion (compared with the extracted
+    crit_parts; a mismatch is a broken tie): [one rule per class, every declared key = its rule's key with the
+    declared shifts, urule_wf, minima >= 0 and a function of the class, the root pumps (Python value iteration)]"""
+    first = {}
+    for u in us:
+        first.setdefault(u[0], u)
+    one = len(first) == len(us)
+    keys_ok = all(p in first and [list(x) for x in kids] == _urule_kids(first[p]) for p, kids in ks)
+    wf = True
+    for u in us:
+        if u[1] == 1:
+            wf = wf and all(m >= 0 for _, m in u[2])
+        elif u[1] == 2:
+            wf = wf and 0 <= u[4] < len(u[3]) and u[3][u[4]] == u[0]
+        elif u[1] == 7:
+            wf = wf and u[2] >= 0
+    dmin, mins = {}, True
+    for u in us:
+        if u[1] == 1:
+            for x, m in u[2]:
+                mins = mins and m >= 0 and dmin.setdefault(x, m) == m
+    pumps = _pumps([(p, [tuple(x) for x in kids]) for p, kids in ks], root)
+    return [int(one), int(keys_ok), int(wf), int(mins), int(pumps)]
+
+
+def _conv_full(tabs, n):
+    """coefficient n of the full Cauchy product of the tabulated series"""
+    acc = {0: 1}
+    for t in tabs:
+        nxt = {}
+        for a, v in acc.items():
+            for m in range(0, n - a + 1):
+                if v and t[m]:
+                    nxt[a + m] = nxt.get(a + m, 0) + v * t[m]
+        acc = nxt
+    return acc.get(n, 0)
+
+
+def table_checks_py(us, W, M):
+    """genuine_u / the local recurrence of to_srule / vanishing below the declared minima on the TRUE tables W[c][n],
+    n <= M, computed by the harness (compared with genuine_ub / recur_okb / low_okb of the extracted run)"""
+    gen, rec = [], []
+    for u in us:
+        c, k = u[0], u[1]
+        if k == 0:
+            ok = all(W[c][n] == sum(W[x][n] for x in u[2]) for n in range(M + 1))
+            ok2 = ok
+        elif k == 1:
+            kids = [x for x, _ in u[2]]
+            mins = [m for _, m in u[2]]
+            ok = all(W[c][n] == _conv_full([W[x] for x in kids], n) for n in range(M + 1))
+            # local recurrence: factor i read at sizes min_i .. n - (sum of the other minima)
+            tot = sum(mins)
+            cut = [[(W[x][j] if m <= j <= M else 0) for j in range(M + 1)] for x, m in u[2]]
+            ok2 = all(W[c][n] == _conv_full([[(t[j] if j <= n - (tot - m) else 0) for j in range(M + 1)]
+                                             for t, m in zip(cut, mins)], n) for n in range(M + 1))
+        elif k == 2:
+            ok = all(W[u[2]][n] == sum(W[x][n] for x in u[3]) for n in range(M + 1))
+            others = [y for j, y in enumerate(u[3]) if j != u[4]]
+            ok2 = all(W[c][n] == W[u[2]][n] - sum(W[x][n] for x in others) for n in range(M + 1))
+        elif k == 7:
+            ok = ok2 = all(W[c][n] == int(n == u[2]) for n in range(M + 1))
+        else:
+            ok = ok2 = all(W[c][n] == 0 for n in range(M + 1))
+        gen.append(int(ok))
+        rec.append(int(ok2))
+    low = all(W[x][j] == 0 for u in us if u[1] == 1 for x, m in u[2] for j in range(0, min(m, M + 1)))
+    return gen, rec, int(low)
+
+
+def _criterion_input(b, check):
+    """field 8 of the model input and the harness's own entry [6, ...] for a get_genf case whose specification lies in
+    the criterion's fragment; (None, None, reason) otherwise"""
+    got = uspec_of(b)
+    if got[0] != "ok":
+        return None, None, got[1]
+    _, us, ks = got
+    if b.spec.number_of_cvs() > 0 or any(c.extra_parameters for c in b.classes):
+        return None, None, "statistics"
+    M = _oracle_order(b)
+    root = b.label(b.spec.root)
+    labs = sorted({b.label(c) for c in b.classes})
+    by = {b.label(c): c for c in b.classes}
+    W = {l: [sum(truth(by[l], n).values()) for n in range(M + 1)] for l in labs}
+    cl = [b.label(r.comb_class) for r in b.rules]
+    parts = crit_parts_py(us, ks, root)
+    gen, rec, low = table_checks_py(us, W, M)
+    sel = int(all(x in cl and m <= check + 1 for u in us if u[1] == 1 for x, m in u[2]))
+    # the equations of the descriptor rules are the equations of the rule descriptors (decided by the model run;
+    # the harness expects "same" everywhere: the mapping of uspec_of is the one of
+    # C20_without_parameters_equivalences_are_unions)
+    same = [1] * (len(us) + 1)
+    enc = [root, us, ks, M, [[l, W[l]] for l in labs], check, cl]
+    return enc, [6, int(all(parts)), parts, same, gen, rec, low, sel], None
+
+
 def _bf_order(b, indep):
     """how far brute force (the class's own objects_of_size) is affordable for the ROOT of a get_genf case"""
     S = _S()
@@ -1589,6 +1795,48 @@ def oracle(case, res):
                 why += " [the defect repaired by fix %s: the tree is in the state before that commit]" % landed
             if why:
                 return why + which
+        why = _check_decided(b, res, facts)
+        if why:
+            return why
+    return None
+
+
+CRIT_THM = "C20_closed_form_criterion"
+MIN_COVERED = 0.95     # measured 0.99 on seeds 0-2 (quick tier): the rest are Quotient / user-verified specifications
+
+
+def _check_decided(b, res, facts):
+    """the criterion instantiated on the real specification: res["crit"] = the harness's entry [6, verdict, parts, same,
+    genuine, recur, low, sel] (equal to the extracted run's or the case is a model/implementation mismatch).  Oracle
+    facts: every rule of the descriptor is genuine for the TRUE tables (genuine_u to size M), the recurrences of
+    to_srule reproduce them, nothing lies below a declared minimum size."""
+    crit = res.get("crit")
+    if crit is None:
+        if any("genf" in g for g in res.get("genf", [])):
+            facts.append("thm:%s:outside:%s" % (CRIT_THM, res.get("crit_outside", "?")))
+        return None
+    _, verdict, parts, _same, gen, rec, low, sel = crit
+    M = _oracle_order(b)
+    for i, (g, r) in enumerate(zip(gen, rec)):
+        if not g:
+            return ("rule %d (%s) of the returned specification is not genuine for the brute-force counts up to size %d "
+                    "(genuine_u, the premise of C20_true_counts_solution)" % (i, b.rules[i], M))
+        if not r:
+            return ("the recurrence of rule %d (%s) with the declared minimum sizes / shifts does not reproduce the "
+                    "brute-force counts up to size %d" % (i, b.rules[i], M))
+    if not low:
+        return "a factor of a product has objects below its declared minimum size (brute force up to size %d)" % M
+    facts.append("genuine_u:rules=%d" % len(gen))
+    names = ["one-rule-per-class", "declared-shifts", "urule_wf", "minimum-sizes", "root-pumps"]
+    if verdict:
+        facts.append("thm:%s:covered" % CRIT_THM)
+        facts.append("thm:C20_genf_selected_closed_form:" + ("covered" if sel else "not_covered(sel_okb)"))
+    else:
+        facts.append("thm:%s:not_covered(%s)" % (CRIT_THM, "+".join(n for n, p in zip(names, parts) if not p)))
+    applies = "genf:criterion:applies" in facts
+    if applies != bool(verdict):
+        return ("harness: _criterion says %s but the decided hypotheses of %s are %r" % (
+            "applies" if applies else "does not apply", CRIT_THM, dict(zip(names, parts))))
     return None
 
 
@@ -1860,7 +2108,7 @@ def nontrivial(case, res):
     out = res.get("out")
     if not isinstance(out, list) or not out:
         return False
-    out = [d for d in out if d and d[0] != 5]        # (entries [5, ..]: the selection of get_genf)
+    out = [d for d in out if d and d[0] not in (5, 6)]   # (entries [5, ..]: the selection of get_genf; [6, ..]: the criterion)
     if not out:
         return False
     if case["kind"] == "rule":
@@ -1906,7 +2154,7 @@ def classify(case, res):
             tags.append("genf:check=%d" % case["check"])
     tags += list(res.get("facts", []))     # written by the oracle (worker process): what was checked and how
     names = set()
-    for d in [d for d in res.get("out") if d and d[0] != 5] if isinstance(res.get("out"), list) else []:
+    for d in [d for d in res.get("out") if d and d[0] not in (5, 6)] if isinstance(res.get("out"), list) else []:
         if len(d[3]) == 3 and d[3][1] and len(d[3][1][0][0]) > 1:
             names.add("multivariate-evaluated")
     return tags + sorted(names)
@@ -2057,4 +2305,29 @@ def extra_checks(ctx):
         ident, crit, cnts), not tags.get("genf:criterion:broken") and not tags.get("genf:spec-counts-DIFFER"),
         "C20_closed_form_criterion's per-instance hypotheses failed / the specification's own counts differ"
         if tags.get("genf:criterion:broken") or tags.get("genf:spec-counts-DIFFER") else "ok"))
+    # the criterion instantiated: cases whose returned closed form is covered by the decided theorem
+    n = k = ksel = nrules = 0
+    outside = Counter()
+    for c, (res, _, _) in zip(ctx.cases, ctx.impl_res):
+        if not (isinstance(res, dict) and any("genf" in g for g in res.get("genf", []) or [])):
+            continue
+        n += 1
+        crit = res.get("crit")
+        if crit is None:
+            outside[res.get("crit_outside", "?")] += 1
+            continue
+        nrules += len(crit[4])
+        k += bool(crit[1])
+        ksel += bool(crit[1] and crit[7])
+    frac = k / n if n else 1.0
+    out.append(("covered_by_theorem %s: %d of %d" % (CRIT_THM, k, n), n == 0 or not big or frac >= MIN_COVERED,
+                "get_genf cases that returned a closed form on which the extracted crit_okb (run_c20, field 8 = the "
+                "descriptor uspec_of builds from the real specification) AND the harness decide the decidable hypotheses "
+                "of the criterion (C20_criterion_decided): %.3f, required %.2f; not in the fragment: %s; sel_okb too "
+                "(C20_genf_selected_closed_form_decided): %d; genuine_u / recurrence / minimum sizes evaluated on the "
+                "brute-force tables for %d rules of these specifications (all hold, else the oracle fails). REMAIN per "
+                "instance: the solved functions satisfy every equation identically (sympy simplify, trusted), their "
+                "coefficients are integers and 0 below the minima (checked to order 8), genuineness beyond size M; "
+                "W = the specification's counts = the true counts is C01's conclusion" % (
+                    frac, MIN_COVERED, dict(outside) or "none", ksel, nrules)))
     return out
